@@ -168,6 +168,9 @@ class C18(Prop):
             "policies; min_freq from a list of p/q; ~8% malformed hierarchies (error class compared); "
             "fit and transform frames carry a non-default row index in ~75% of cases (offset integers, "
             "permutation of 0..n-1, strings, non-monotone distinct integers, labels overlapping 0..n-1 by half); "
+            "custom str_nan keyword (~57%), values_orders given at construction (~30%, a quarter of them naming a "
+            "value unknown to the hierarchy), hierarchies holding a value named '__OTHER__' (~30%) and a str_default "
+            "keyword equal to a hierarchy value (~30%) with a never-seen value refused at transform; "
             "a third of the volume again with NUMERIC columns whose string forms are the leaves (int64, "
             "float64 with integer-valued floats like 2.0 and others like 3.5, NaN, object columns mixing a "
             "number and its string form), unknown numbers under both policies, transform of the raw numeric "
@@ -219,6 +222,18 @@ class C18(Prop):
                               ["all", "4", "small", "2"]))
             cs.append(self.mk([N0, N1], [str(x) for x in nums], 0.2, drop, {"order_probe": True}, None, None, None,
                               ["3", "nope", "1"]))
+        # the hierarchy lists the library's default bucket name "__OTHER__" as a leaf / a str_default
+        # keyword names a hierarchy value: no default bucket here, a never-seen value stays refused
+        O0 = [["small", ["1", "2", "__OTHER__", "small"]], ["big", ["3", "4", "big"]]]
+        for drop in (False, True):
+            cs.append(self.mk([O0, N1], [str(x) for x in nums] + ["__OTHER__"] * 3, 0.2, drop,
+                              {"default_probe": True}))
+            cs.append(self.mk([O0, N1], nums + ["__OTHER__"] * 3 + [NAN], 0.2, drop, {"default_probe": True},
+                              None, "mixed"))
+            cs.append(self.mk([N0, N1], [str(x) for x in nums], 0.2, drop, {"default_probe": True}, None, None,
+                              None, None, "small"))
+            cs.append(self.mk([N0, N1], nums, 0.2, drop, {"default_probe": True}, None, "int", "MISSING",
+                              None, "3"))
         # minimised inputs of earlier findings (always run first)
         import glob
         import json
@@ -228,7 +243,8 @@ class C18(Prop):
             cs.append(json.load(open(fn))["case"])
         return cs
 
-    def mk(self, levels, col, mf, drop, meta=None, index=None, numeric=None, str_nan=None, vo=None):
+    def mk(self, levels, col, mf, drop, meta=None, index=None, numeric=None, str_nan=None, vo=None,
+           str_default=None):
         case = {"levels": [[[k, list(vs)] for k, vs in lv] for lv in levels], "col": encs(col),
                 "mf": float(mf), "drop": bool(drop), "kin": hier_values(levels),
                 "wellformed": wellformed(levels), "meta": meta or {}, "index": index}
@@ -236,6 +252,8 @@ class C18(Prop):
             case["str_nan"] = str_nan           # ChainedDiscretizer(..., str_nan=...) keyword
         if vo is not None:
             case["vo"] = list(vo)               # ChainedDiscretizer(..., values_orders={feature: vo})
+        if str_default:
+            case["str_default"] = str_default   # str_default keyword (ChainedDiscretizer has no default bucket)
         if numeric:
             # numeric: raw cells are numbers (or a mix); strtab = the str() table of this case
             case["numeric"] = numeric
@@ -298,8 +316,9 @@ class C18(Prop):
         vo = case.get("vo")
         if vo is not None:
             vo = [form(v)[0] for v in vo]
+        sd = case.get("str_default")
         return self.mk(levels, col, case["mf"], case["drop"], meta, case.get("index"), flavour,
-                       case.get("str_nan"), vo)
+                       case.get("str_nan"), vo, form(sd)[0] if sd else None)
 
     def rand_forest(self, rng):
         nlev = rng.choice([2, 2, 3, 3, 4])
@@ -416,8 +435,22 @@ class C18(Prop):
             vo = rng.sample(hv, rng.randint(0, len(hv)))      # any order, any subset, no duplicate
             if rng.random() < 0.25:
                 vo.insert(rng.randint(0, len(vo)), "not_in_hierarchy")
+        # a hierarchy value literally named like the library's default bucket "__OTHER__", and/or a
+        # str_default keyword equal to a hierarchy value: ChainedDiscretizer has no default bucket, a
+        # never-seen value at transform must still be refused
+        str_default = None
+        if rng.random() < 0.3:
+            hv = hier_values(levels)
+            old = rng.choice(hv)
+            ren = lambda x: "__OTHER__" if x == old else x          # noqa: E731
+            levels = [[[ren(k), [ren(x) for x in vs]] for k, vs in lv] for lv in levels]
+            col = [r if isnan(r) else ren(r) for r in col]
+            if vo is not None:
+                vo = [ren(x) for x in vo]
+        if rng.random() < 0.3:
+            str_default = rng.choice(hier_values(levels) + ["__OTHER__"])
         return self.mk(levels, col, mf, drop, {"b": b, "n": len(col), "malformed": bad}, index,
-                       None, str_nan, vo)
+                       None, str_nan, vo, str_default)
 
     def rand_dropped(self, rng):
         """no value reaches min_freq: the feature is removed"""
@@ -454,7 +487,7 @@ class C18(Prop):
                     i = rng.randrange(len(col2))
                     col2[i] = rng.choice(c["kin"])
                 cases.append(self.mk(c["levels"], col2, c["mf"], c["drop"], {"neighbour": True}, c.get("index"),
-                                     c.get("numeric"), c.get("str_nan"), c.get("vo")))
+                                     c.get("numeric"), c.get("str_nan"), c.get("vo"), c.get("str_default")))
         return cases
 
     # ---- implementation -----------------------------------------------------------------------
@@ -470,6 +503,8 @@ class C18(Prop):
             kw["str_nan"] = case["str_nan"]
         if case.get("vo") is not None:
             kw["values_orders"] = {FEAT: list(case["vo"])}
+        if case.get("str_default"):
+            kw["str_default"] = case["str_default"]
 
         def frame(values):
             values = list(values)
@@ -618,7 +653,10 @@ class C18(Prop):
             got = out[name]
             if values is None:
                 if got != "assert":
-                    return False, "transform of a frame holding a never-seen value is not refused with AssertionError"
+                    return False, ("transform of a frame holding a never-seen value is not refused with AssertionError"
+                                   + (f": it came out as {decs(got)[-1]!r}" if not isinstance(got, str) else f" ({got})")
+                                   + (f" [str_default={case['str_default']!r}]" if case.get("str_default") else "")
+                                   + (" [the hierarchy holds a value named '__OTHER__']" if "__OTHER__" in case["kin"] else ""))
                 continue
             filled = [sn if isnan(r) else r for r in values]
             if any(r not in m for r in filled):
@@ -750,7 +788,8 @@ class C18(Prop):
             cand = self.mk(levels, col, case["mf"], case["drop"], {"shrunk": True}, case.get("index"),
                            case.get("numeric"), case.get("str_nan"),
                            None if case.get("vo") is None else [v for v in case["vo"]
-                                                                if v in hier_values(levels) or v not in case["kin"]])
+                                                                if v in hier_values(levels) or v not in case["kin"]],
+                           case.get("str_default"))
             if not cand["wellformed"]:
                 return None
             o = self.run_impl(cand)
@@ -820,6 +859,8 @@ class C18(Prop):
                 "rows_max": max(rows) if rows else 0, "distinct_unknown_values(0,1,2+)": unk,
                 "policy": pol, "row_index_kind": idx, "column_cells": flav,
                 "custom_str_nan": sum(1 for c in cases if c.get("str_nan")),
+                "str_default_kwarg": sum(1 for c in cases if c.get("str_default")),
+                "hierarchy_holds___OTHER__": sum(1 for c in cases if "__OTHER__" in c["kin"]),
                 "values_orders_given(consistent,inconsistent)": [
                     sum(1 for c in cases if c.get("vo") is not None and all(x in c["kin"] for x in c["vo"])),
                     sum(1 for c in cases if c.get("vo") is not None and any(x not in c["kin"] for x in c["vo"]))], "cases_with_nan": nan_cases,
